@@ -10,7 +10,8 @@ if "--tier" in args:
 if "--skip-suite" in args:
     args.remove("--skip-suite"); skip_suite = True
 patch = os.path.abspath(args[0])
-VF = os.environ.get("VF_DRIVER", "/verif/vf")
+HERE = os.path.dirname(os.path.dirname(os.path.abspath(__file__)))
+VF = os.environ.get("VF_DRIVER", os.path.join(HERE, "vf"))
 props = args[1:] or ["C%02d" % i for i in range(1, 21)]
 wt = "/tmp/seedtest-%d" % os.getpid()
 def sh(cmd, **kw):
@@ -31,7 +32,7 @@ try:
     for p in props:
         t0 = time.time()
         env = dict(os.environ, VF_REPO=wt)
-        r = subprocess.run([VF, "check", p, "--tier", tier, "--evidence-off"], stdout=subprocess.PIPE, stderr=subprocess.STDOUT, text=True, env=env, cwd="/verif")
+        r = subprocess.run([VF, "check", p, "--tier", tier, "--evidence-off"], stdout=subprocess.PIPE, stderr=subprocess.STDOUT, text=True, env=env, cwd=HERE)
         viol = [l for l in r.stdout.splitlines() if l.startswith("VIOLATION")]
         msgs = [l for l in r.stdout.splitlines() if re.match(r"^\[C\d+\] /verif/replay", l)]
         res[p] = (r.returncode, len(viol))
